@@ -1,7 +1,46 @@
 import PprofVerif.Base.Tok
-/- Driver operations for C20. -/
-namespace Driver.C20
-open PV
+import PprofVerif.Model.Conc
+import PprofVerif.Gen.LockFacts
+/- Driver operations for C20.
 
-def ops : List (String × (List String → String)) := []
+* `fs.seq <limit> <k> <n> <idx₁ … idxₙ>` — the exclusive-create model: `k` calls of newTempFile one
+  after the other on a directory in which the listed indices exist; reply `ok i₁ … i_k`
+  (`-` = gave up).  The harness compares this with the names the real newTempFile returns.
+* `facts.bad` — the access sites of the REGENERATED lock facts that are not dominated by their
+  guard (empty on a healthy tree); `facts.summary` — sizes of the tables.  Used by the harness to
+  say *which* site broke an obligation and to aim the race search at it.
+-/
+namespace Driver.C20
+open PV PV.Conc PV.ConcFacts
+
+def showSite (s : Site) : String :=
+  s.var ++ "@" ++ s.file ++ ":" ++ toString s.line ++ "(" ++ s.fn ++ "," ++
+    (if s.write then "write" else "read") ++ "," ++ reprStr s.barrier ++ ")"
+
+def badSites : List Site :=
+  Gen.LockFacts.sites.filter fun s => match lookup Gen.LockFacts.guards s.varId with
+    | some g => !siteOk g s
+    | none => true
+
+def ops : List (String × (List String → String)) := [
+  ("fs.seq", fun ts =>
+    match Rd.run (do let limit ← Rd.nat; let k ← Rd.nat; let ex ← Rd.list Rd.nat; pure (limit, k, ex)) ts with
+    | none => "bad-op"
+    | some (limit, k, ex) =>
+      let d : FS.Dir := fun n => if ex.contains n then some 0 else none
+      "ok " ++ " ".intercalate ((FS.runSeq limit d k).map fun r => match r with
+        | some n => toString n
+        | none => "-")),
+  ("facts.bad", fun _ =>
+    let bad := badSites.map showSite ++
+      (Gen.LockFacts.immutableWrites.filter (fun s => !s.barrier.threadLocal)).map showSite ++
+      (Gen.LockFacts.nested.map fun n => "nested:" ++ n.1 ++ ":" ++ n.2.1 ++ ">" ++ n.2.2.1) ++
+      ((Gen.LockFacts.goSites.filter (fun g => !goOk g)).map fun g => "go:" ++ g.fn ++ "@" ++ g.file ++ ":" ++ toString g.line) ++
+      (if tempExcl Gen.LockFacts.tempFile then [] else ["tempfile:flags=" ++ toString Gen.LockFacts.tempFile.flags])
+    toString bad.length ++ (if bad.isEmpty then "" else " " ++ " ".intercalate (bad.map fun s => s.replace " " "_"))),
+  ("facts.summary", fun _ =>
+    "guards " ++ toString Gen.LockFacts.guards.length ++ " sites " ++ toString Gen.LockFacts.sites.length ++
+    " regions " ++ toString Gen.LockFacts.regions.length ++ " go " ++ toString Gen.LockFacts.goSites.length ++
+    " flags " ++ toString Gen.LockFacts.tempFile.flags)
+]
 end Driver.C20
